@@ -46,6 +46,9 @@ type Exec struct {
 	recTypes    map[string]types.Type // results recorded by "option records <name>"
 	curCallArgs  []ssa.Value // SSA arguments of the call whose contract is being applied
 	curCallFrame *Frame
+	curFree      map[string]Val
+	immut        []immutCell // captured variables that are never re-assigned: they keep their entry value across havocs
+	lastSel      *selInfo // the most recently generated select statement (for selected()/offers())
 	typedHavocs []*thEvent
 	thDone      map[string]bool
 	loadOwner   string
@@ -518,6 +521,7 @@ func (x *Exec) havocAllHeap(st *State) {
 	st.Comp["lock"] = x.get(st, "lock")
 	st.Comp["alloc"] = x.get(st, "alloc")
 	st.Gen = x.c.fresh("g")
+	x.reassumeImmutable(st)
 }
 
 // zero-initialise an allocated object
@@ -836,4 +840,11 @@ func (fr *Frame) val(v ssa.Value) string {
 	t := x.c.freshConst("undef", x.c.sortOf(v.Type()))
 	fr.env[v] = t
 	return t
+}
+
+// the cases of a select statement: channel terms, the literal of each case index, and the chosen index
+type selInfo struct {
+	idx   string
+	chans []string
+	lits  []string
 }
